@@ -445,6 +445,9 @@ struct C13 : Scenario {
 			o.full_payload_sometimes = false;
 			o.perms = false;
 			o.methods = {"-lhx-", "-lh7-", "-lh6-", "-lhx-", "-lh5-", "-pm2-", "-lh1-"};
+			// now and then thousands of tiny members with small decoder states: what is lost per member adds up past any constant
+			bool thousands = rng.chance(1, 8);
+			if (thousands) { n = 2000 + (int) rng.below(1500); o.methods = {"-lh0-", "-lz5-", "-lzs-", "-lz4-"}; o.max_payload = 24; p.sets("thousands", "1"); }
 			for (int i = 0; i < n; ++i) {
 				Member m = gen_file(rng, 1 + (int) rng.below(3), "", "m" + std::to_string(i) + gen_name(rng, 4), o);
 				if (rng.chance(1, 2) && m.method != "-lh7-") m.os = 'm';   // as MacLHA flags its members (no envelope: too short)
@@ -718,7 +721,7 @@ struct C13 : Scenario {
 			return res;
 		}
 		if (p.scenario == "many_members") {
-			for (int k = 0; k < 6 && res.ok; ++k) {
+			for (int k = 0; k < (p.gets("thousands") == "1" ? 2 : 6) && res.ok; ++k) {
 				Task t = base;
 				apply_kind(t, KINDS[k]);
 				++evals;
